@@ -373,6 +373,12 @@ def finish(prop, level, tier, seed, jobs, t0, assumptions, rule, extra_cov=None,
     if rc == 0 and cov["distinct_nontrivial"] < require_distinct:
         broken.append("vacuity guard: distinct_nontrivial=%d" % cov["distinct_nontrivial"])
         rc = 2
+    # counting guard: a driver that reports more distinct non-trivial cases than evaluations miscounts
+    for pn, pv in cov["parts"].items():
+        if pv.get("distinct", 0) > pv.get("evaluations", 0):
+            broken.append("counting guard: part %s reports %d distinct cases for %d evaluations" % (pn, pv["distinct"], pv["evaluations"]))
+            if rc == 0:
+                rc = 2
     ev = {"property_id": prop, "tier": tier, "seed": seed, "level": level, "coverage": cov,
           "assumptions": assumptions, "wall_s": round(time.time() - t0, 2),
           "violations": len(seen_keys), "known_findings_seen": sorted(seen_known.keys())}
